@@ -1,7 +1,7 @@
 PROP = dict(
     id="C02",
     lean_modules=["TongoProofs.C02", "TongoProofs.C02Compose"],
-    gen=["LevelMask", "CellDesc"],
+    gen=["LevelMask", "CellDesc", "BocHeader", "MinBits", "TlbTypes", "IntTypes"],  # all regenerated modules its imports (C07, C16) need
     # the model of newImmutableCell is PROVED equal to the TON definition (impl_eq_spec, table_refines_tree), so its
     # answers are the specification: a mismatch on these ops is a violation with the table as failing input.
     # `spec.levels` is answered on the model side by the Lean SPEC itself (Spec.hashAt/depthAt on the unfolded tree).
@@ -58,7 +58,9 @@ PROP = dict(
                "hashed from the zero padding of its buffer: outside WFExotic, where the definition does not apply); "
                "levelmask_facts / "
                "levelmask_bits (finite table, kernel decide) and gen_levelmask tying the hand model of the mask helpers "
-               "to definitions regenerated from boc/level_mask.go on every run; cache_sound / hash_structural (memoised "
+               "to definitions regenerated from boc/level_mask.go on every run; cache_sound / cache_sound_errors / hasher_calls_sound (both tables of a Hasher - immutable cells and hex strings - "
+               "any sequence of Hash/HashString calls: every answer, value OR error, equals the uncached function's; "
+               "an error is never stored) / hash_structural (memoised "
                "hashing with any valid pointer-keyed table = plain recursion; result depends on the tree only); "
                "table_refines_tree (the table evaluation run by the compiled driver = the tree recursion the theorems "
                "are about); forms_eq_spec (Hash256 / HashString / Level()); msg_tx_hash_is_spec (hash field of a decoded "
@@ -68,7 +70,7 @@ PROP = dict(
                "error - and the definition's hashes whenever the cell is WFExotic). Tie, checked on every run: Go Cell.Hash, all four level hashes/depths (hook "
                "VerifHashLevels[Cached]) and Level() vs the compiled model on generated WFExotic DAGs and on every cell "
                "of every testdata BOC; the Lean SPEC itself vs Go on small trees (spec.levels); direct oracles on Go "
-               "alone against a Go transcription of the definition (go.spec, go.boc), cached vs fresh (go.cached), "
+               "alone against a Go transcription of the definition (go.spec, go.boc), every Hasher entry point called repeatedly in mixed order, incl. chains of depth 1022..1100 and shared sub-trees at the limit, vs the uncached functions for values AND errors (go.cached), cells obtained from the library's proof builder - cursors pruning at depths 1..4+, ProveKeyInHashmap - compared with an independently constructed structure, the exotic-cell rules and the definition's hash/depth/level of every cell (go.built, go.builtdict), "
                "Level()/Hash256/HashString vs model (cell.forms), decoded message/transaction hash field vs definition (go.msgtx), hash unchanged by reads (go.reads), independent of how the cell was obtained (go.obtained: builder API, "
                "serialise+parse; go.readbits), never a panic on malformed cells (go.nopanic).",
     level_note="assurance = min(theorems about the model, tie): the tie is differential (generated + all testdata), not a "
